@@ -288,7 +288,15 @@ pub fn execute(case: &Value, scratch: &str) -> Outcome {
         return out;
     }
     let ext = if is_csv(&api) { "csv" } else { "xlsx" };
-    let dest = format!("{}/out.{}", root, ext);
+    // the destination's name: ordinary, ending in ".tmp", with several dots, without an extension
+    let dest_file = match case["dest_name"].as_str().unwrap_or("plain") {
+        "ends_tmp" => format!("out.{}.tmp", ext),
+        "only_tmp" => "data.tmp".to_string(),
+        "dots" => format!("two.dots.v1.{}", ext),
+        "noext" => "noext".to_string(),
+        _ => format!("out.{}", ext),
+    };
+    let dest = format!("{}/{}", root, dest_file);
     let old: Vec<u8> = if is_csv(&api) { b"old,file\r\n1,2\r\n".to_vec() } else { old_bytes() };
     if dest_existing {
         std::fs::write(&dest, &old).unwrap();
@@ -306,9 +314,22 @@ pub fn execute(case: &Value, scratch: &str) -> Outcome {
         }
     }
     let dest_existing = dest_existing || (api == "set_password" && case["same_path"].as_bool().unwrap_or(false));
+    let lib_tmp = format!("{}tmp", dest);
     if case["tmp_exists"].as_bool().unwrap_or(false) {
         // a stale temporary sibling from an earlier, interrupted save
-        let _ = std::fs::write(format!("{}/out.{}tmp", root, ext), b"stale temporary file");
+        let _ = std::fs::write(&lib_tmp, b"stale temporary file");
+    }
+    // bystanders: other files of the user in the same directory, with names close to the destination's; a
+    // save, failed or not, leaves them alone
+    let mut bystanders: Vec<(String, Vec<u8>)> = Vec::new();
+    if case["bystanders"].as_bool().unwrap_or(false) {
+        let stem_tmp = std::path::Path::new(&dest).with_extension("tmp").to_string_lossy().to_string();
+        for (name, content) in [(stem_tmp, b"user file stem.tmp".to_vec()), (format!("{}.bak", dest), b"user backup".to_vec()), (format!("{}bak", dest), b"user backup 2".to_vec()), (format!("{}/other.{}", root, ext), b"another document".to_vec())] {
+            if name != dest && name != lib_tmp && name != from {
+                let _ = std::fs::write(&name, &content);
+                bystanders.push((name, content));
+            }
+        }
     }
 
     shim::arm(ShimState::new(&root, &dest, plan.clone()));
@@ -405,9 +426,24 @@ pub fn execute(case: &Value, scratch: &str) -> Outcome {
             break;
         }
     }
+    // I5: nothing else in the directory is touched
+    for (name, content) in &bystanders {
+        let now = std::fs::read(name).ok();
+        if now.as_ref() != Some(content) {
+            let short = name.rsplit('/').next().unwrap_or("");
+            out.violate(Verdict::new(
+                "C13",
+                "C13:bystander-damaged",
+                &[("api", &api), ("dest_name", case["dest_name"].as_str().unwrap_or("plain"))],
+                format!("saving to {} {} the unrelated file {} next to it", dest_file, if now.is_none() { "removed" } else { "overwrote" }, short),
+            ));
+            break;
+        }
+    }
     // probes
+    let by_names: Vec<String> = bystanders.iter().map(|(n, _)| n.rsplit('/').next().unwrap_or("").to_string()).collect();
     let leftovers: Vec<String> = std::fs::read_dir(&root)
-        .map(|d| d.filter_map(|e| e.ok()).map(|e| e.file_name().to_string_lossy().to_string()).filter(|n| n != &format!("out.{}", ext) && n != "in.xlsx").collect())
+        .map(|d| d.filter_map(|e| e.ok()).map(|e| e.file_name().to_string_lossy().to_string()).filter(|n| n != &dest_file && n != "in.xlsx" && !by_names.contains(n)).collect())
         .unwrap_or_default();
     if !leftovers.is_empty() {
         out.probe("temp_left_behind");
@@ -606,6 +642,8 @@ pub fn cases(run_seed: u64, tier: &str, scratch: &str) -> Vec<Value> {
     let shared_ops = base["ops"].clone();
     base["same_path"] = json!(api == "set_password" && sw.chance(1, 3));
     base["tmp_exists"] = json!(sw.chance(1, 5));
+    base["dest_name"] = json!(if sw.chance(1, 3) { ["ends_tmp", "only_tmp", "dots", "noext"][sw.usize(4)] } else { "plain" });
+    base["bystanders"] = json!(sw.chance(1, 2));
     let mut out: Vec<Value> = Vec::new();
 
     if SINK_APIS.contains(&api) {
